@@ -85,7 +85,10 @@ def replay_hist(world, hist, tid, **kw):
     rec.start(g)
     for step in hist:
         d = step["blk"]
-        blk = world.concretise(d)
+        try:
+            blk = world.concretise(d)
+        except sk.Unrealisable:
+            continue
         rec.add(blk, step["now"], validated=(step["act"] == "add"),
                 label={"act": step["act"], "mut": d.get("mut", ""), "txmuts": [t.get("mut", "") for t in d["txs"]],
                        "parent": d["parent"], "model_res": step["res"], "model_rule": step["rule"]})
